@@ -57,6 +57,13 @@ mutual
             | .obj kvs => .obj (canonEntriesD s q skip sub kvs)
             | j => j) (gtyOf sf.ty.quals) v
         | ty =>
+          match loneG sub with
+          | some g =>
+            -- a lone spread of a fragment on the abstract type itself: what the fragment's own type(s) write
+            (match q.fragments[g]? with
+             | some f => canon (canonAbsV s skip f.sels) (gtyOf sf.ty.quals) v
+             | none => v)
+          | none =>
           canon (fun j => match j with
             | .obj kvs => .obj (canonEntriesBD s q skip ty (absRest s q ty sub kvs) sub kvs ++
                 (("__typename", Json.str (tagName kvs)) :: canonVarD s q skip (tagName kvs) sub kvs))
